@@ -9,6 +9,10 @@ CHECKS = [
       technique="explicit-state BFS over director histories under virtual time vs. model of current waits",
       text="Explicit-state model checking on the implementation under interposed virtual time: every history (to a depth bound) of {start sleep/give/take/close/select/pipe read|chunk with or without timeout/pipe write/close-writer, each optionally under ev/with-deadline; ev/cancel of a blocked fiber; advance time to the next live or stale timer} over 2-3 fibers, 0-2 channels (capacity 0..2) and 0-2 pipes is replayed in the real event loop; every completion (fiber, value or error payload, virtual instant), the suspended set and channel counts must equal the reference model in which stale registrations are inert; a parked fiber resumed by anything but the director is a spurious wakeup.",
       note="Trusted: virtual time (clock_gettime/timerfd_settime/epoll_wait/nanosleep interposed with -Wl,--wrap), the Python model of waits, quiescence detection. Subprocess waits and thread waits are exercised in C20/C08, not here."),
+ dict(id="C14",
+      technique="bounded-exhaustive operand products on the real interpreter vs. Python big-int/IEEE/Fraction reference",
+      text="Exhaustive enumeration of (operator, call route, ordered operand tuple) over boundary-dense operand sets (2^k, 2^k+-1 for every k, INT64/UINT64 extremes, fractions, infinities, numeric strings) for all arithmetic, bitwise, shift, comparison and compare-family operators on int/s64, int/u64, numbers and strings in every type pairing and both orders, executed in the real interpreter and compared value-for-value with an independent Python reference (big ints mod 2^64, IEEE doubles, exact rationals).",
+      note="Trusted: the Python reference model (props/C14/model.py) and the conventions listed in props/C14/NOTES.md; cases where C leaves the result undefined (shift counts outside 0..63 / 0..31) are excluded and counted."),
 ]
 _ALL = ["C%02d" % i for i in range(1, 21)]
 def _na():
